@@ -320,18 +320,23 @@ class AirTouchSocket(Generic[comms.Hdr]):
     async def _disconnect(self) -> None:
         _LOGGER.debug("_disconnect: is_connected=%s", self.is_connected)
 
-        if self._writer:
-            self._writer.close()
+        # Mark the socket as disconnected before waiting for the stream to
+        # close so that messages sent in the meantime are queued for the next
+        # connection instead of being written to the closing stream.
+        writer = self._writer
+        self.is_connected = False
+        self._reader = None
+        self._writer = None
+
+        if writer:
+            writer.close()
             # wait_closed could raise an error if the socket has been closed by
             # the other side. This will already have been logged, so just
             # suppress it here.
             with contextlib.suppress(OSError):
-                await self._writer.wait_closed()
+                await writer.wait_closed()
 
-        self.is_connected = False
-        self._reader = None
-        self._writer = None
-        await self._notify_connection_changed(connected=self.is_connected)
+        await self._notify_connection_changed(connected=False)
 
     async def reset_connection(self) -> None:
         """Resets the connection to the AirTouch.
